@@ -83,6 +83,14 @@ func (p *prop) Generate(rng *core.Rand, tier string, emit func(string)) {
 	for i := 0; i < nSite/6; i++ {
 		emit(genFauthCase(rgl))
 	}
+	// ---- the JSON encoder of the status codes (model-carried)
+	for i := 0; i < nSite*3/2; i++ {
+		emit(genWsCase(rgl))
+	}
+	// ---- numeric token spellings in every numeric slot (status codes, ports, sizes, durations, counts): strict validity
+	for i := 0; i < nSite/2; i++ {
+		emit(genNumTokCase(rgl))
+	}
 	// ---- site blocks whose policies / host lists / routes are merged by the adapter, 64 adaptations each
 	for i := 0; i < nSite/8; i++ {
 		emit(genMergeCase(rgl))
